@@ -181,4 +181,22 @@ def insertJob {α : Type} (j : Nat × α) : List (Nat × α) → List (Nat × α
 def sortById {α : Type} (jobs : List (Nat × α)) : List (Nat × α) :=
   jobs.foldr insertJob []
 
+/-! ### executable checkers for the implementation's own outputs (proved equivalent to their
+specifications in `Proofs/SelectCheck.lean`) -/
+
+/-- `TopKSelector.select` returned exactly the `min k n` lowest-loss members with weights `1` -/
+def checkTopK (losses : List Rat) (k : Nat) (idx : List Nat) (ws : List Rat) : Bool :=
+  let n := losses.length
+  idx.length == min k n && decide idx.Nodup && idx.all (fun i => decide (i < n)) &&
+  idx.all (fun i => (List.range n).all (fun j =>
+    idx.contains j || decide (losses.getD i 0 ≤ losses.getD j 0))) &&
+  decide (ws = List.replicate (min k n) 1)
+
+/-- `GreedySelector.select` returned valid, distinct, at most `bound` indices with as many positive
+weights summing to one (up to `tol`, the rounding of `counts / total`) -/
+def checkGreedyOut (tol : Rat) (n bound : Nat) (idx : List Nat) (ws : List Rat) : Bool :=
+  decide idx.Nodup && idx.all (fun i => decide (i < n)) && !idx.isEmpty && decide (idx.length ≤ bound) &&
+  ws.length == idx.length && ws.all (fun w => decide (0 < w)) &&
+  decide (ws.sum - 1 ≤ tol) && decide (1 - ws.sum ≤ tol)
+
 end DH.Select
